@@ -89,7 +89,7 @@ def run(repo, rep):
 
     # ---------------------------------------------------------------- C16.a
     n = 0
-    table = m.assigns.get('_SYNTAX_TOKEN_TO_PYGMENTS_TOKEN')
+    table = m.assigns.get(__import__('engine.roles', fromlist=['x']).name(repo, 'token_table'))
     if not table or not isinstance(table[-1], ast.Dict):
         raise AnalysisError('token table is no longer a dict literal')
     keys = [src(k) for k in table[-1].keys]
